@@ -22,6 +22,12 @@ def gen(rng, tier):
         r.shuffle(lines)
         n = per * 4 if name in ALL_OF else per
         reqs += lines[:n]
+    # the capacity-estimate boundaries of radix parsing in full (feature-conditional estimate)
+    try:
+        import c06 as _c06
+        reqs += _c06.capacity_boundary_reqs(random.Random(rng.randrange(1 << 30)), tier)
+    except Exception:  # noqa: BLE001
+        pass
     # text of every radix on a few sizes (C15 stream op; exists everywhere)
     for v in [0, 1, B - 1, B, big(rng, 3), big(rng, 17), big(rng, 65)]:
         for rdx in range(2, 37):
